@@ -30,6 +30,7 @@
 #include <sys/mman.h>
 #include <signal.h>
 #include <fcntl.h>
+#include <pthread.h>
 
 using namespace bloc;
 
@@ -571,6 +572,76 @@ static std::string doStep(const vj::Val& st) {
       }
       o += std::string(",\"oc\":") + (nbad ? "\"foreign_exception\"" : "\"ok\"") + ",\"nok\":" + std::to_string(nok) + ",\"nparse\":" + std::to_string(nparse) +
            ",\"nrun\":" + std::to_string(nrun) + ",\"firstbad\":" + std::to_string(firstbad) + ",\"ctrl\":0,\"lvl\":0";
+    }
+    else if (op == "threads") {
+      /* one compiled program, n clones, n threads at the same time (as bloc_execute2 does); per-thread results */
+      Ctx& c = getCtx(id);
+      int n = (int)st.num("n", 2), reps = (int)st.num("reps", 1);
+      StringReader rd(st.str("text"));
+      Executable* ex = nullptr;
+      std::string oc = "ok";
+      try { ex = Parser::parse(*c.ctx, rd); } catch (ParseError& pe) { oc = "parse_error"; }
+      std::string per = "[";
+      if (ex) {
+        c.execs.push_back(ex);
+        struct T { Context* cx; int fd; std::string oc, name, out; };
+        std::vector<T> ts(n);
+        for (int k = 0; k < n; ++k) { ts[k].fd = memfd_create("vt", 0); ts[k].cx = c.ctx->clone(ts[k].fd, ts[k].fd); ts[k].oc = "ok"; }
+        std::vector<pthread_t> th(n);
+        static pthread_barrier_t bar;
+        pthread_barrier_init(&bar, nullptr, n);
+        struct Arg { T* t; Executable* ex; int reps; };
+        std::vector<Arg> args(n);
+        auto fn = [](void* p) -> void* {
+          Arg* a = (Arg*)p;
+          pthread_barrier_wait(&bar);           /* all threads start together */
+          for (int r = 0; r < a->reps; ++r) {
+            try { Executable::run(*a->t->cx, a->ex->statements()); }
+            catch (RuntimeError& re) { a->t->oc = "runtime_error"; a->t->name = errName(re); }
+            catch (...) { a->t->oc = "foreign_exception"; }
+            a->t->cx->returnCondition(false);
+            if (a->t->oc != "ok") break;      /* an unhandled error ends this thread's work */
+          }
+          return nullptr;
+        };
+        for (int k = 0; k < n; ++k) { args[k] = Arg{&ts[k], ex, reps}; pthread_create(&th[k], nullptr, fn, &args[k]); }
+        for (int k = 0; k < n; ++k) pthread_join(th[k], nullptr);
+        pthread_barrier_destroy(&bar);
+        for (int k = 0; k < n; ++k) {
+          if (ts[k].cx->ctxout()) fflush(ts[k].cx->ctxout());
+          off_t e = lseek(ts[k].fd, 0, SEEK_END); ts[k].out.resize(e);
+          if (e > 0 && pread(ts[k].fd, &ts[k].out[0], e, 0) < 0) ts[k].out.clear();
+          if (k) per += ',';
+          per += "{\"oc\":" + vj::q(ts[k].oc) + ",\"name\":" + vj::q(ts[k].name) + ",\"out\":" + vj::q(ts[k].out) + "," + dumpJson(*ts[k].cx) + "}";
+          delete ts[k].cx; close(ts[k].fd);
+        }
+      }
+      per += "]";
+      /* data races reported by ThreadSanitizer so far (when built with it): the functions on top of the two stacks */
+      std::string races = "[";
+      if (const char* lp = getenv("VDRIVE_TSAN_LOG")) {
+        std::string log = slurp(std::string(lp) + "." + std::to_string((long)getpid()));
+        size_t p0 = 0; bool first = true;
+        while ((p0 = log.find("WARNING: ThreadSanitizer: data race", p0)) != std::string::npos) {
+          size_t endw = log.find("SUMMARY: ThreadSanitizer", p0);
+          /* the two accesses: the first frame of the first two stacks, as source file:line */
+          size_t q = p0; int got = 0;
+          while (got < 2 && (q = log.find("#0 ", q)) != std::string::npos && (endw == std::string::npos || q < endw)) {
+            size_t e = log.find('\n', q);
+            std::string line = log.substr(q, e - q);
+            size_t r = line.find("/repo/");
+            std::string loc = "?";
+            if (r != std::string::npos) { size_t sp = line.find(' ', r); loc = line.substr(r + 6, sp - r - 6); size_t c2 = loc.rfind(':'); if (c2 != std::string::npos) loc = loc.substr(0, c2); }
+            else { size_t sp = line.find(' ', 3); loc = line.substr(3, sp == std::string::npos ? 40 : sp - 3); }
+            if (!first) races += ','; first = false;
+            races += vj::q(loc);
+            ++got; q = e;
+          }
+          p0 += 10;
+        }
+      }
+      races += "]";
+      o += ",\"oc\":" + vj::q(oc) + ",\"per\":" + per + ",\"races\":" + races;
     }
     else if (op == "cli") {
       o += ",\"oc\":\"ok\"," + runCli(st);
